@@ -26,6 +26,9 @@ class C01(PropertyCheck):
         "quick": "all masks with >=1 unmasked pixel for every shape with H*W <= 9 (index ops) and H*W <= 6 (constructors)",
         "thorough": "all masks with >=1 unmasked pixel for every shape with H*W <= 14 (index ops) and H*W <= 9 (constructors)",
     }
+    # loop ties (DESIGN §12): Generated/LoopsSlim.lean is regenerated from the source on every run and
+    # Proofs/TieSlim.lean proves each generated definition equal to the Impl function, for all sizes
+    loop_tie_modules = ["LoopsSlim"]
     modelled_functions = [
         "autoarray/mask/mask_2d_util.py:native_index_for_slim_index_2d_from",
         "autoarray/mask/mask_2d_util.py:mask_slim_indexes_from",
